@@ -17,7 +17,10 @@ CONSTANTS Obj,            \* object -> [id, uid, flat (uid without dashes), arch
           Dev_ParentSetFirst,   \* F-11c  a refused add has already overwritten variant.parent
           Dev_RecurseDropsArch, \* F-11b  get_variants(recursive) forgets the arch filter
           Dev_LookupUidFirst,   \* F-11d  __getitem__ scans (absolute) UIDs before walking the path
-          Dev_UidCollision      \* F-11e  a variant whose UID is already used elsewhere in the forest is accepted
+          Dev_UidCollision,     \* F-11e  a variant whose UID is already used elsewhere in the forest is accepted
+          BottomUp,             \* scope switch: children may be added to a variant that is not (yet) in the forest,
+                                \*   and the finished sub-tree attached afterwards
+          Dev_UidSubtreeUnchecked  \* F-11f  only the UID of the added variant is compared, not those of the sub-tree it brings
 VARIABLES kids,           \* [container -> [key -> object]]  children dictionaries (key = id)
           par,            \* [object -> container or None]   parent back-pointers
           out
@@ -44,10 +47,20 @@ ArchOk(o, p, k) == ArchChecked(o, p, k) => Obj[o].arches \subseteq Obj[p[o]].arc
 ValidObj(o, p, k) == Obj[o].arches # {} /\ UidOk(o, p) /\ ArchOk(o, p, k)
 
 IsFiled(q) == \E d \in Cont : q \in Range(kids[d])
+\* the forest as reachable from the top, and the sub-tree an object brings along (bounded recursion; defined here for the guard)
+RECURSIVE DescOf(_, _)
+DescOf(c, n) == IF n = 0 THEN {} ELSE Range(kids[c]) \cup UNION {DescOf(d, n - 1) : d \in Range(kids[c])}
+Sub(o) == IF Dev_UidSubtreeUnchecked THEN {o} ELSE {o} \cup DescOf(o, 4)
+\* no UID of the incoming sub-tree is used by a variant of the forest outside that sub-tree.  Top-down construction
+\* (BottomUp = FALSE): every filed variant is in the forest and the incoming variant is childless - the cheap form.
+UidFree(o) == IF BottomUp
+              THEN LET forest == DescOf(ROOT, 4) \ ({o} \cup DescOf(o, 4))
+                   IN  \A r \in Sub(o) : \A q \in forest : Obj[q].uid # Obj[r].uid
+              ELSE \A q \in Objs : (Obj[q].uid = Obj[o].uid /\ q # o) => ~IsFiled(q)
 AddOk(c, o) ==
   LET p1 == IF c # ROOT THEN [par EXCEPT ![o] = c] ELSE par      \* the parent link the add would create
   IN  /\ ValidObj(o, p1, kids)
-      /\ (Dev_UidCollision \/ \A q \in Objs : (Obj[q].uid = Obj[o].uid /\ q # o) => ~IsFiled(q))   \* UIDs stay unique in the forest
+      /\ (Dev_UidCollision \/ UidFree(o))                         \* UIDs stay unique in the forest
       /\ (c # ROOT => o \notin Anc(c, p1, N))                     \* not its own ancestor
       /\ (Obj[o].id \in DOMAIN kids[c] => kids[c][Obj[o].id] = o) \* id not taken by another variant
 Add(c, o) ==
@@ -63,7 +76,7 @@ Add(c, o) ==
 Filed(o) == \E c \in Cont : o \in Range(kids[c])
 InScope(c, o) == Filed(o) => (o \in Range(kids[c]) \/ (c # ROOT /\ o \in Anc(c, par, N)))
 \* dashed top-level UIDs only on childless variants; no container that is not itself filed
-Attachable(c) == c = ROOT \/ (Filed(c) /\ (par[c] = None => Len(Obj[c].uid) = 1))
+Attachable(c) == c = ROOT \/ (c # ROOT /\ (BottomUp \/ Filed(c)) /\ (par[c] = None => Len(Obj[c].uid) = 1))
 Next == \E c \in Cont, o \in Objs : InScope(c, o) /\ Attachable(c) /\ Add(c, o)
 
 \* ---- growth beyond C11: VariantBase.__delitem__ (by id from the container; a dashed name walks the path).
